@@ -7,6 +7,9 @@ import (
 	"crypto/sha256"
 	"encoding/json"
 	"fmt"
+	"github.com/BlackVectorOps/semantic_firewall/v3/internal/cli"
+	"github.com/BlackVectorOps/semantic_firewall/v3/pkg/models"
+	"golang.org/x/tools/go/packages"
 	"os"
 	"strings"
 	"syscall"
@@ -21,11 +24,26 @@ func init() {
 	register("env", suiteEnv)
 	childModes["envchild"] = func(args []string) {
 		out := map[string][]string{"environ": os.Environ(), "hardened": diff.GetHardenedEnv()}
+		// the environment the dependency loader of `sfw scan --deps` is really given
+		cap := &capturingLoader{}
+		cli.RunScanDeps(cap, os.TempDir(), models.ScanOptions{ScanDeps: true, DepsDepth: "direct"}, nil)
 		// hex so that any byte survives
-		enc := map[string]string{"environ": hxList(out["environ"]), "hardened": hxList(out["hardened"])}
+		enc := map[string]string{"environ": hxList(out["environ"]), "hardened": hxList(out["hardened"]), "loader": hxList(cap.env), "loader_called": b01(cap.called)}
 		b, _ := json.Marshal(enc)
 		os.Stdout.Write(b)
 	}
+}
+
+// capturingLoader records the environment of the packages.Config it is handed and loads nothing.
+type capturingLoader struct {
+	env    []string
+	called bool
+}
+
+func (l *capturingLoader) Load(cfg *packages.Config, patterns ...string) ([]*packages.Package, error) {
+	l.called = true
+	l.env = append([]string{}, cfg.Env...)
+	return nil, fmt.Errorf("capturing loader: nothing loaded")
 }
 
 var guardedKeysGo = []string{"CGO_ENABLED", "GOPROXY", "GOFLAGS", "GONOSUMDB", "GOWORK", "GO111MODULE", "GOTOOLCHAIN"}
@@ -57,13 +75,18 @@ func envRelated(e string) bool {
 }
 
 func runEnvChild(envp []string) (environ, hardened []string, err error) {
+	environ, hardened, _, _, err = runEnvChild2(envp)
+	return
+}
+
+func runEnvChild2(envp []string) (environ, hardened, loader []string, loaderCalled bool, err error) {
 	self, err := os.Executable()
 	if err != nil {
-		return nil, nil, err
+		return nil, nil, nil, false, err
 	}
 	r, w, err := os.Pipe()
 	if err != nil {
-		return nil, nil, err
+		return nil, nil, nil, false, err
 	}
 	pid, err := syscall.ForkExec(self, []string{self, "envchild"}, &syscall.ProcAttr{
 		Env:   envp,
@@ -72,7 +95,7 @@ func runEnvChild(envp []string) (environ, hardened []string, err error) {
 	w.Close()
 	if err != nil {
 		r.Close()
-		return nil, nil, err
+		return nil, nil, nil, false, err
 	}
 	var buf bytes.Buffer
 	buf.ReadFrom(r)
@@ -80,15 +103,16 @@ func runEnvChild(envp []string) (environ, hardened []string, err error) {
 	var ws syscall.WaitStatus
 	syscall.Wait4(pid, &ws, 0, nil)
 	if ws.ExitStatus() != 0 {
-		return nil, nil, fmt.Errorf("envchild exit %d", ws.ExitStatus())
+		return nil, nil, nil, false, fmt.Errorf("envchild exit %d", ws.ExitStatus())
 	}
 	var enc map[string]string
 	if err := json.Unmarshal(buf.Bytes(), &enc); err != nil {
-		return nil, nil, fmt.Errorf("envchild output: %v", err)
+		return nil, nil, nil, false, fmt.Errorf("envchild output: %v", err)
 	}
 	environ, _ = unhxList(enc["environ"])
 	hardened, _ = unhxList(enc["hardened"])
-	return environ, hardened, nil
+	loader, _ = unhxList(enc["loader"])
+	return environ, hardened, loader, enc["loader_called"] == "1", nil
 }
 
 func genEnv(r *Rng, malformed bool) []string {
@@ -119,7 +143,8 @@ func genEnv(r *Rng, malformed bool) []string {
 		}
 	}
 	unrelatedKeys := []string{"PATH", "HOME", "FOO", "LANG", "GOPROXYX", "XGOPROXY", "GOPROX", "GOWORKS", "GO", "CGO", "CGO_ENABLE", "GOFLAG", "goos", "GOARCH", "TERM", "", "Ünï", "KK"}
-	values := []string{"", "0", "1", "off", "on", "direct", "https://evil.example/proxy", "-mod=mod -modfile=/tmp/x", "auto", "a=b=c", "line1\nline2", "GOPROXY=direct", "ſ", "*", "local", "go1.99"}
+	values := []string{"", "0", "1", "off", "on", "direct", "https://evil.example/proxy", "-mod=mod -modfile=/tmp/x", "auto", "a=b=c", "line1\nline2", "GOPROXY=direct", "ſ", "*", "local", "go1.99",
+		"-tags=netgo", "-tags=netgo\t-mod=mod", "-mod=mod -tags=x,y", "-mod=readonly", "-tags=a\n-modfile=/tmp/evil.mod"}
 	n := r.Intn(13)
 	var env []string
 	for i := 0; i < n; i++ {
@@ -156,7 +181,7 @@ func suiteEnv(c *Ctx) error {
 	r := NewRng(c.Seed)
 	type cs struct {
 		envp, environ, hardened []string
-		malformed              bool
+		malformed               bool
 	}
 	var cases []cs
 	if c.Replay != "" {
@@ -189,7 +214,7 @@ func suiteEnv(c *Ctx) error {
 	var idx []int
 	for i := range cases {
 		cse := &cases[i]
-		environ, hardened, err := runEnvChild(cse.envp)
+		environ, hardened, loaderEnv, loaderCalled, err := runEnvChild2(cse.envp)
 		if err != nil {
 			return err
 		}
@@ -233,6 +258,25 @@ func suiteEnv(c *Ctx) error {
 			}
 			if !found || eff != fixedGo[k] {
 				c.Violate("C15", "C15/override-not-effective:"+k, fmt.Sprintf("effective %s=%q (found=%v), want %q", k, eff, found, fixedGo[k]), replay)
+			}
+		}
+		// the same clause on the environment that the dependency loader (`sfw scan --deps`) really receives
+		if loaderCalled {
+			c.Count("loader_env_checked")
+			if strings.Join(loaderEnv, "\x00") != strings.Join(hardened, "\x00") {
+				for _, k := range guardedKeysGo {
+					eff := ""
+					for _, e := range loaderEnv {
+						if strings.HasPrefix(e, k+"=") {
+							eff = e[len(k)+1:]
+						}
+					}
+					if eff != fixedGo[k] {
+						c.Violate("C15", "C15/loader-env-override-not-effective:"+k, fmt.Sprintf("the package loader of scan --deps is given %s=%q, want %q", k, eff, fixedGo[k]),
+							map[string]interface{}{"envp": cse.envp, "loader_env": loaderEnv, "hardened": hardened})
+					}
+				}
+				c.Violate("C15", "C15/loader-env-differs-from-hardened-env", "the package loader of scan --deps is not given GetHardenedEnv() as it is", map[string]interface{}{"envp": cse.envp, "loader_env": loaderEnv, "hardened": hardened})
 			}
 		}
 		var wantPass []string
